@@ -2,7 +2,7 @@
    creation, key-file step, input channel and stream processor. *)
 From Coq Require Import String List NArith ZArith Bool Ascii Lia.
 From Model Require Import Json Tables Walker Line Stream Base64 KeyFile Cli Atlas Job.
-From Proofs Require Import StreamProofs KeyProofs.
+From Proofs Require Import StreamProofs KeyProofs AtlasProofs.
 Import ListNotations.
 Open Scope list_scope.
 
@@ -155,6 +155,153 @@ Proof.
   { apply run_io_faultfree; assumption. }
   destruct m; [congruence| |]; rewrite Erun; (split; [unfold deliver; destruct (nonempty_s (a_out a)); reflexivity|]);
     rewrite dest_deliver by exact Hat; reflexivity.
+Qed.
+
+(* the same bytes whichever channel delivers the data and wherever the output goes: two plain local jobs with the
+   same redaction configuration whose input channels deliver the same data leave the same bytes at their destinations *)
+Theorem job_channel_independent : forall a1 w1 m1 a2 w2 m2 data bar1 bar2,
+  plain_local a1 w1 m1 -> plain_local a2 w2 m2 -> a_cfg a1 = a_cfg a2 ->
+  (forall fs1, stage_out a1 w1 = Some fs1 -> local_input a1 w1 m1 fs1 = Some (data, REof, bar1)) ->
+  (forall fs1, stage_out a2 w2 = Some fs1 -> local_input a2 w2 m2 fs1 = Some (data, REof, bar2)) ->
+  snd (scan data REof) = SOk ->
+  dest a1 (job tb cs a1 w1) = dest a2 (job tb cs a2 w2) /\
+  j_status (job tb cs a1 w1) = Exit0 /\ j_status (job tb cs a2 w2) = Exit0.
+Proof.
+  intros a1 w1 m1 a2 w2 m2 data bar1 bar2 H1 H2 Hc Hi1 Hi2 Hs.
+  destruct (job_local_output a1 w1 m1 data bar1 H1 Hi1 Hs) as [S1 D1].
+  destruct (job_local_output a2 w2 m2 data bar2 H2 Hi2 Hs) as [S2 D2].
+  rewrite D1, D2, Hc. auto.
+Qed.
+
+(* what each channel delivers: a plain file delivers its content, a .gz file what gunzip makes of it, stdin its data -
+   provided the input path is neither the output file nor (irrelevant here: no encryption) anything else the run writes *)
+Lemma local_input_file a w fs1 p raw mode :
+  a_file a = Some p -> fs1 p = FFile raw mode -> is_gz p = false ->
+  exists bar, local_input a w MFile fs1 = Some (raw, REof, bar).
+Proof. intros Hp Hf Hg. unfold local_input. rewrite Hp, Hf, Hg. eexists. reflexivity. Qed.
+
+Lemma local_input_gz a w fs1 p raw mode data :
+  a_file a = Some p -> fs1 p = FFile raw mode -> is_gz p = true -> w_gunzip w raw = (data, REof) ->
+  exists bar, local_input a w MFile fs1 = Some (data, REof, bar).
+Proof. intros Hp Hf Hg Hz. unfold local_input. rewrite Hp, Hf, Hg, Hz. eexists. reflexivity. Qed.
+
+Lemma local_input_stdin a w fs1 data : w_stdin w = Some data -> local_input a w MStdin fs1 = Some (data, REof, None).
+Proof. intros H. unfold local_input. now rewrite H. Qed.
+
+(* ---------- C08 at the level of the whole run: no failure is reported as success ---------- *)
+Theorem job_failure_reported : forall a w m fs1 fs2 enc data e bar,
+  decide (flags_of a w) = CAccept m -> m <> MAtlas ->
+  stage_out a w = Some fs1 -> stage_key a w fs1 = Some (fs2, enc) ->
+  local_input a w m fs2 = Some (data, e, bar) ->
+  fst (run_io tb cs (a_cfg a) enc data e (w_writer w) bar) <> ROk ->
+  j_status (job tb cs a w) = Exit1.
+Proof.
+  intros a w m fs1 fs2 enc data e bar Hd Hm E1 E2 Hin Hbad. unfold job. rewrite Hd, E1, E2. unfold stage_run.
+  destruct m; [congruence| |]; rewrite Hin; unfold deliver;
+    destruct (fst (run_io tb cs (a_cfg a) enc data e (w_writer w) bar)) eqn:Er; try congruence;
+    destruct (nonempty_s (a_out a)); reflexivity.
+Qed.
+
+(* in particular a reader that ends with an error (cut gzip stream, read error) *)
+Theorem job_read_error_reported : forall a w m fs1 fs2 enc data bar,
+  decide (flags_of a w) = CAccept m -> m <> MAtlas ->
+  stage_out a w = Some fs1 -> stage_key a w fs1 = Some (fs2, enc) ->
+  local_input a w m fs2 = Some (data, RErr, bar) ->
+  j_status (job tb cs a w) = Exit1.
+Proof.
+  intros. eapply job_failure_reported; try eassumption.
+  intros Hok. apply io_ok_iff in Hok. destruct Hok as [Hs _].
+  rewrite scan_unfold in Hs.
+  destruct (snd (scan_terminated (fst (split_lines data)))); cbn [snd] in Hs; [discriminate|].
+  destruct (snd (split_lines data)); cbn [snd] in Hs; [discriminate|].
+  destruct (max_token <=? _)%N; cbn [snd] in Hs; discriminate.
+Qed.
+
+(* an input that cannot be opened ends the run with status 1 *)
+Theorem job_input_unavailable : forall a w m fs1 fs2 enc,
+  decide (flags_of a w) = CAccept m -> m <> MAtlas ->
+  stage_out a w = Some fs1 -> stage_key a w fs1 = Some (fs2, enc) ->
+  local_input a w m fs2 = None ->
+  j_status (job tb cs a w) = Exit1 /\ j_stdout (job tb cs a w) = [].
+Proof.
+  intros a w m fs1 fs2 enc Hd Hm E1 E2 Hin. unfold job. rewrite Hd, E1, E2. unfold stage_run.
+  destruct m; [congruence| |]; rewrite Hin; split; reflexivity.
+Qed.
+
+(* ---------- C11 at the level of the whole run ---------- *)
+(* an unusable key: status 1, nothing on standard output, the output file (created before the key step) stays empty,
+   the key path is exactly as it was *)
+Theorem job_key_unusable : forall a w m fs1,
+  decide (flags_of a w) = CAccept m -> stage_out a w = Some fs1 ->
+  a_encrypt a = true -> nonempty_s (a_keyfile a) = true ->
+  unusable (kstate_of (fs1 (a_keyfile a))) ->
+  job tb cs a w = fail fs1 /\
+  (a_keyfile a <> a_out a -> j_fs (job tb cs a w) (a_keyfile a) = w_fs w (a_keyfile a)) /\
+  dest a (job tb cs a w) = [].
+Proof.
+  intros a w m fs1 Hd E1 He Hk Hu.
+  assert (Ej : job tb cs a w = fail fs1).
+  { unfold job. rewrite Hd, E1. unfold stage_key. rewrite He, Hk. cbn [andb].
+    destruct (unusable_fails _ [] Hu) as [_ Hf]. rewrite (Hf (w_rnd w)). reflexivity. }
+  split; [exact Ej|]. rewrite Ej. split.
+  - intros Hne. cbn [fail j_fs]. eapply stage_out_frame; eassumption.
+  - unfold dest. cbn [fail j_fs j_stdout]. destruct (nonempty_s (a_out a)) eqn:Eo; [|reflexivity].
+    unfold stage_out in E1. rewrite Eo in E1. destruct (create_at _ _ _ E1) as [mm Hm]. now rewrite Hm.
+Qed.
+
+(* no key file yet: the key path receives base64 of the fresh bytes with mode 0600 BEFORE the run proper starts, and the
+   run encrypts under exactly that key *)
+Theorem job_key_created : forall a w m fs1,
+  decide (flags_of a w) = CAccept m -> stage_out a w = Some fs1 ->
+  a_encrypt a = true -> nonempty_s (a_keyfile a) = true ->
+  fs1 (a_keyfile a) = FAbsent true ->
+  stage_key a w fs1 = Some (upd fs1 (a_keyfile a) (FFile (b64_encode (w_rnd w)) mode_0600), Some (w_encrypt w (w_rnd w))) /\
+  job tb cs a w = stage_run tb cs a w m (upd fs1 (a_keyfile a) (FFile (b64_encode (w_rnd w)) mode_0600)) (Some (w_encrypt w (w_rnd w))).
+Proof.
+  intros a w m fs1 Hd E1 He Hk Ha.
+  assert (Es : stage_key a w fs1 = Some (upd fs1 (a_keyfile a) (FFile (b64_encode (w_rnd w)) mode_0600), Some (w_encrypt w (w_rnd w)))).
+  { unfold stage_key. rewrite He, Hk, Ha. reflexivity. }
+  split; [exact Es|]. unfold job. now rewrite Hd, E1, Es.
+Qed.
+
+(* a valid key file: used, and the key path is byte for byte (and mode) what it was, whatever else the run does *)
+Theorem job_key_valid_untouched : forall a w m fs1 content mode key,
+  decide (flags_of a w) = CAccept m -> stage_out a w = Some fs1 ->
+  a_encrypt a = true -> nonempty_s (a_keyfile a) = true ->
+  fs1 (a_keyfile a) = FFile content mode -> read_key content = Some key ->
+  a_keyfile a <> a_out a -> (forall i, a_keyfile a <> (a_out a ++ "." ++ dec_of_nat i)%string) ->
+  j_fs (job tb cs a w) (a_keyfile a) = FFile content mode /\
+  exists fs2, stage_key a w fs1 = Some (fs2, Some (w_encrypt w key)).
+Proof.
+  intros a w m fs1 content mode key Hd E1 He Hk Hf Hr Hne Hi.
+  assert (Es : stage_key a w fs1 = Some (upd fs1 (a_keyfile a) (FFile content mode), Some (w_encrypt w key))).
+  { unfold stage_key. rewrite He, Hk, Hf. cbn [andb kstate_of run_key]. rewrite Hr. reflexivity. }
+  split; [|eexists; exact Es].
+  unfold job. rewrite Hd, E1, Es. rewrite stage_run_frame by assumption. apply upd_same.
+Qed.
+
+(* ---------- C17 at the level of the whole run: no downloaded log is left behind, whatever the job ---------- *)
+Theorem job_no_tmp_left : forall a w, j_tmp_left (job tb cs a w) = 0.
+Proof.
+  intros a w. unfold job.
+  destruct (decide _) as [r|m]; [reflexivity|].
+  destruct (stage_out a w) as [fs1|]; [|reflexivity].
+  destruct (stage_key a w fs1) as [[fs2 enc]|]; [|reflexivity].
+  unfold stage_run. destruct m.
+  - cbn [j_tmp_left]. now rewrite no_tmp_left.
+  - destruct (local_input a w MFile fs2) as [[[d e] b]|]; [|reflexivity]. unfold deliver. destruct (nonempty_s (a_out a)); reflexivity.
+  - destruct (local_input a w MStdin fs2) as [[[d e] b]|]; [|reflexivity]. unfold deliver. destruct (nonempty_s (a_out a)); reflexivity.
+Qed.
+
+(* network requests are made by Atlas jobs only *)
+Theorem job_local_no_requests : forall a w m, decide (flags_of a w) = CAccept m -> m <> MAtlas -> j_trace (job tb cs a w) = [].
+Proof.
+  intros a w m Hd Hm. unfold job. rewrite Hd.
+  destruct (stage_out a w) as [fs1|]; [|reflexivity].
+  destruct (stage_key a w fs1) as [[fs2 enc]|]; [|reflexivity].
+  unfold stage_run. destruct m; [congruence| |].
+  - destruct (local_input a w MFile fs2) as [[[d e] b]|]; [|reflexivity]. unfold deliver. destruct (nonempty_s (a_out a)); reflexivity.
+  - destruct (local_input a w MStdin fs2) as [[[d e] b]|]; [|reflexivity]. unfold deliver. destruct (nonempty_s (a_out a)); reflexivity.
 Qed.
 
 End JobProofs.
